@@ -1,4 +1,5 @@
 import FstVerif.Proofs.Lookup
+import FstVerif.Proofs.EndToEnd
 /-
 C16 — get_key on maps whose values increase with the keys. Statements here,
 proofs in Proofs/Lookup.lean. `Tight` (every transition output is attained
@@ -26,6 +27,32 @@ theorem C16_get_key (hg : GoodStore s den) (hr : Represents acc s) (root : Nat)
     (∀ k, (k, value) ∈ den root → fstGetKeyInto acc root fuel value buf = some (true, buf ++ k)) ∧
     ((∀ k, (k, value) ∉ den root) → ∃ buf', fstGetKeyInto acc root fuel value buf = some (false, buf')) :=
   fstGetKeyInto_correct hg hr root hroot hm ht fuel hf value buf
+
+/-- END TO END, on the bytes of the file a map builder writes: if the values strictly
+increase in key order, `get_key_into` (with the fuel the driver passes) appends exactly the
+key of `value` and returns true when some key — including the empty key — has it, and
+returns false otherwise. `Tight` is discharged by Proofs/Build.lean (`build_tight`). -/
+theorem C16_file (rows cols ty : Nat) (hty : ty < 2^64) (kvs : KV) (hs : SortedKV kvs)
+    (hv : ∀ kv ∈ kvs, kv.2 < 2^64) (hn : kvs.length < 2^64) (hmono : Mono kvs) :
+    ∃ s bytes, insertAll (BState.new rows cols) kvs = .ok s ∧ s.fileBytes ty = .ok bytes ∧
+      (bytes.length < 2^64 →
+        ∃ m, fstNew (Src.ofList bytes) = .ok m ∧
+          ∀ fuel, bytes.length + 2 ≤ fuel → ∀ (value : Nat) (buf : Key),
+            (∀ k, (k, value) ∈ kvs →
+              fstGetKeyInto (byteAccess 3 (Src.ofList bytes)) m.rootAddr fuel value buf =
+                some (true, buf ++ k)) ∧
+            ((∀ k, (k, value) ∉ kvs) →
+              ∃ buf', fstGetKeyInto (byteAccess 3 (Src.ofList bytes)) m.rootAddr fuel value buf =
+                some (false, buf'))) :=
+  E2E.e2e_get_key rows cols ty hty kvs hs hv hn hmono
+
+/-- without `Tight` the statement is false even for a monotone good store (kernel-checked witness) -/
+theorem C16_tight_needed :
+    GoodStore LookupExample.badStore LookupExample.badDen ∧ Mono (LookupExample.badDen 2) ∧
+    ([97], 5) ∈ LookupExample.badDen 2 ∧
+    fstGetKeyInto (Fst.storeAccess LookupExample.badStore) 2 4 5 [] = some (false, [98]) := by
+  obtain ⟨h1, _, _, h4, _, h6, _, h8⟩ := LookupExample.getKey_counterexample
+  exact ⟨h1, h4, h6, h8⟩
 
 example : Mono (LookupExample.exDen 3) ∧ Tight LookupExample.exStore LookupExample.exDen :=
   ⟨LookupExample.exMono, LookupExample.exTight⟩
